@@ -135,6 +135,31 @@ def _(xp, a):
     return dict(L=xp.max(t) + xp.min(s) + xp.prod(t) + xp.sum(xp.cumsum(s, axis=0)) + xp.einsum("ij->", t), t=t, s=s)
 
 
+@prog("repeat-arg-unbalanced-paths", "pure", (3,))
+def _(xp, w):
+    # a non-leaf tensor feeds one op twice and, through a much longer chain, the same loss: every path must be summed before
+    # the tensor's own gradient is propagated further upstream
+    x = 3.0 * w
+    long_path = xp.sin(xp.cos(xp.exp(x * 0.5)))
+    return dict(L=xp.sum(long_path + x * x), x=x)
+
+
+@prog("repeat-arg-unbalanced-paths-matmul", "pure", (2, 2))
+def _(xp, w):
+    h = w * 2.0 + 1.0
+    deep = xp.tanh(xp.sin(xp.exp(h * 0.1) * 0.5) + 1.0)
+    return dict(L=xp.sum(xp.matmul(h, h)) + xp.sum(deep * deep * h), h=h)
+
+
+@prog("repeat-arg-three-depths", "pure", (4,))
+def _(xp, w):
+    x = xp.exp(w * 0.3)
+    y = x - x * x
+    z = xp.sqrt(xp.sqrt(x * x + 1.0) + 1.0)
+    q = xp.sin(xp.sin(xp.sin(xp.sin(x))))
+    return dict(L=xp.sum(y + z * q + q), x=x)
+
+
 @prog("diamond-transposed-max", "pure views", (2, 3), (2, 3))
 def _(xp, a, c):
     g = a * c
@@ -364,6 +389,29 @@ def _(xp, a, b):
     return dict(L=xp.sum(x * x) + xp.sum(v), x=x, v=v)
 
 
+# where= masks that BROADCAST against the out= target (lower rank, singleton axes, scalar): NumPy aligns them to the trailing axes
+def _mk_bmask(mask, on_view, unary):
+    mask = np.asarray(mask)
+
+    def f(xp, a, b):
+        x = a * 1.0
+        y = x * x  # reads the old contents
+        tgt = x[:, ::-1] if on_view else x
+        if unary:
+            xp.exp(b * 0.3, out=tgt, where=mask)
+        else:
+            xp.multiply(tgt, b, out=tgt, where=mask)
+        return dict(L=xp.sum(y) + xp.sum(x * x * 0.5) + xp.sum(tgt), x=x, y=y)
+
+    return f
+
+
+for _mname, _m in (("row1d", [True, False, False]), ("row1d-b", [False, True, True]), ("col", [[True], [False], [True]]), ("rowvec", [[False, True, True]]), ("scalar-false", False), ("scalar-true", True), ("full", [[True, False, True], [False, False, True], [True, True, False]])):
+    for _ov in (False, True):
+        for _un in (False, True):
+            P.append((f"where-broadcast/{_mname}/{'view' if _ov else 'base'}/{'unary' if _un else 'binary'}", {"inplace", "mask", "generated"}, ((3, 3), (3, 3)), _mk_bmask(_m, _ov, _un)))
+
+
 @prog("inplace-on-leaf", "inplace leafmut", (3,), (3,))
 def _(xp, a, b):
     y = a * 2.0
@@ -448,6 +496,97 @@ def _mk(pre, mut):
 for _pn, _pf in _PRE:
     for _mn, _mf in _MUT:
         P.append((f"gen/{_pn}/{_mn}", {"inplace", "generated"}, ((2, 2), (2,)), _mk(_pf, _mf)))
+
+
+# ---- in-place updates of views of owners with either memory order, through every kind of (possibly layout-dependent) view ---------
+# owner order: "C" -> x = a*1.0 ; "F" -> x = a.T*1.0 (the op keeps its operand's layout, so x owns Fortran-ordered memory)
+_LVIEWS = [
+    ("T.reshape(-1)", lambda xp, x: x.T.reshape(-1)),
+    ("reshape(-1)", lambda xp, x: x.reshape(-1)),
+    ("T", lambda xp, x: x.T),
+    ("[1:]", lambda xp, x: x[1:]),
+    ("[:,::-1]", lambda xp, x: x[:, ::-1]),
+    ("T[1:].reshape(-1)", lambda xp, x: x.T[1:].reshape(-1)),
+    ("ravel", lambda xp, x: x.ravel()),
+    ("swapaxes.reshape", lambda xp, x: xp.swapaxes(x, 0, 1).reshape(-1)),
+]
+_LMUTS = [
+    ("[:2]=c", lambda xp, v, c: v.__setitem__(slice(None, 2), c)),
+    ("*=c", lambda xp, v, c: v.__imul__(c)),
+    ("[...]=c", lambda xp, v, c: v.__setitem__(Ellipsis, c)),
+    ("out=", lambda xp, v, c: xp.multiply(v, c, out=v)),
+]
+
+
+def _mk_lview(order, view, mut):
+    def f(xp, a, c):
+        x = a * 1.0 if order == "C" else a.T * 1.0
+        y = x * x
+        v = view(xp, x)
+        if not np.shares_memory(v.data if hasattr(v, "data") and not isinstance(v, np.ndarray) else v, x.data if not isinstance(x, np.ndarray) else x):
+            # not a view for this memory order: the program reduces to a functional one (kept: both twins agree on that)
+            return dict(L=xp.sum(y) + xp.sum(v * c), x=x)
+        mut(xp, v, c)
+        return dict(L=xp.sum(y) + xp.sum(x * x * 0.5) + xp.sum(v), x=x, v=v)
+
+    return f
+
+
+for _o in ("C", "F"):
+    for _vn, _vf in _LVIEWS:
+        for _mn, _mf in _LMUTS:
+            P.append((f"layout-view/{_o}/{_vn}/{_mn}", {"inplace", "generated", "views"}, ((2, 3), ()), _mk_lview(_o, _vf, _mf)))
+
+
+# ---- generated random DAGs ----------------------------------------------------------------------------------------------------
+# Every node is a smooth op of earlier nodes (operands may repeat, fan-out and path lengths are arbitrary); the loss sums a random
+# subset of nodes, always including the last one.  Exercises: topological order, repeated operands, unbalanced path depths.
+def _mk_dag(k):
+    r = np.random.default_rng(7919 * (k + 1))
+    n_nodes = int(r.integers(4, 11))
+    plan = []
+    for i in range(n_nodes):
+        kind = ["mul", "add", "sub", "sin", "exp", "tanh", "square", "matmul"][int(r.integers(0, 8))]
+        lo = 0
+        a = int(r.integers(lo, i + 2))  # index into [w0, w1, node0, ...]
+        b = int(r.integers(lo, i + 2)) if r.uniform() > 0.35 else a  # repeated operand with probability .35
+        plan.append((kind, a, b, float(r.uniform(0.2, 0.9))))
+    used = sorted(set(int(j) for j in r.integers(0, n_nodes, size=int(r.integers(1, 4)))) | {n_nodes - 1})
+
+    def f(xp, w0, w1):
+        vals = [w0 * 1.0, w1 * 0.5 + 0.25]
+        named = {}
+        for i, (kind, a, b, c) in enumerate(plan):
+            x, y = vals[a], vals[b]
+            if kind == "mul":
+                v = x * y * c
+            elif kind == "add":
+                v = x + y * c
+            elif kind == "sub":
+                v = x - y * c
+            elif kind == "sin":
+                v = xp.sin(x * c) + y * 0.1
+            elif kind == "exp":
+                v = xp.exp(x * 0.1 * c)
+            elif kind == "tanh":
+                v = xp.tanh(x * c) * y
+            elif kind == "square":
+                v = x * x * c
+            else:
+                v = xp.matmul(x, y) * 0.25
+            vals.append(v)
+            named[f"n{i}"] = v
+        L = None
+        for j in used:
+            t = xp.sum(vals[2 + j])
+            L = t if L is None else L + t
+        return dict(L=L, **named)
+
+    return f
+
+
+for _k in range(60):
+    P.append((f"dag/{_k}", {"pure", "generated", "dag"}, ((2, 2), (2, 2)), _mk_dag(_k)))
 
 
 def select(include=(), exclude=()):
